@@ -26,6 +26,15 @@ Theorem C15_code_is_spec tol verify fw bw : NoDup (fw ++ bw) ->
   merge_code tol verify fw bw = merge_spec tol verify fw bw.
 Proof. exact (merge_code_is_spec tol verify fw bw). Qed.
 
+(* no measurement is used twice, and what the code returns (shortcut or walk, with or without verify_timedeltas) contains
+   only adjacent pairs: for every history with distinct stamps, every returned pair is a forward measurement with the very
+   next measurement after it, and two returned pairs share their forward index iff they share their backward index *)
+Theorem C15_code_returns_only_adjacent_pairs_each_once tol verify fw bw : NoDup (fw ++ bw) ->
+  (forall i j, In (i, j) (merge_code tol verify fw bw) ->
+     exists tf tb, nth_error fw i = Some tf /\ nth_error bw j = Some tb /\ tf < tb /\ forall t, In t (fw ++ bw) -> ~ (tf < t < tb)) /\
+  (forall i j i' j', In (i, j) (merge_code tol verify fw bw) -> In (i', j') (merge_code tol verify fw bw) -> (i = i' <-> j = j')).
+Proof. exact (merge_code_sound tol verify fw bw). Qed.
+
 (* the pre-repair shortcut (finding F9, repaired): refuted with and without verify_timedeltas *)
 Theorem C15_old_shortcut_refuted :
   merge_code_old 1500 false [0;10000;20000] [15000;25000;35000] <> merge_spec 1500 false [0;10000;20000] [15000;25000;35000] /\
@@ -44,4 +53,4 @@ Example C15_ex1 : merge_spec 1500 true [0;10000;20000;30000] [5000;25000;35000] 
 Proof. split; [vm_compute; reflexivity|]. repeat constructor; simpl; intuition discriminate. Qed.
 
 Print Assumptions C15_pairs_adjacent. Print Assumptions C15_neighbour_filter. Print Assumptions C15_code_is_spec.
-Print Assumptions C15_old_shortcut_refuted. Print Assumptions C15_spatial.
+Print Assumptions C15_old_shortcut_refuted. Print Assumptions C15_spatial. Print Assumptions C15_code_returns_only_adjacent_pairs_each_once.
